@@ -146,7 +146,26 @@ func (g *Gen) instr(b *ssa.BasicBlock, ins ssa.Instruction, h Heap) Heap {
 		g.vals[x] = res
 		return h2
 	case *ssa.Go:
-		g.Assumed["go statement: spawned call "+x.Call.String()+" is not followed (recorded only)"] = true
+		g.Assumed["go statement: the spawned call is not followed; only its 'spawned' ghost bookkeeping is applied"] = true
+		if fn := x.Call.StaticCallee(); fn != nil {
+			if fc := g.P.contractFor(fn); fc != nil {
+				env := &Env{g: g, vars: map[string]Val{}, heap: h, old: h, noLocals: true}
+				for _, d := range fc.Spawned {
+					v, err := env.eval(d.Expr)
+					if err != nil {
+						g.unsupported("%s: spawned %q: %v", fc.Key, d.Text, err)
+						continue
+					}
+					h2, err := g.setDesignator(env, d.Target, v, h)
+					if err != nil {
+						g.unsupported("%s: spawned %q: %v", fc.Key, d.Text, err)
+						continue
+					}
+					h = h2
+					env.heap = h
+				}
+			}
+		}
 		return h
 	case *ssa.Defer:
 		k := len(g.defers)
